@@ -78,6 +78,7 @@ def run(tier):
     R = common.Run("C04", tier)
     ok, log = common.build_driver()
     R.proof = common.check_properties_file("C04")
+    R.extra["translator"] = dict(common.TRANSLATOR_STATUS)
     if not ok:
         R.proof = dict(ok=False, theorems=[], log=log[-3000:])
         return R.finish(VC.TRUSTED, VC.ASSUME, RULE, "make -C coq Properties/C04.vo")
